@@ -7,7 +7,7 @@
    (str.upper is modelled on a-z only).  Python's str methods are modelled exactly as the code
    uses them: find of a one-character needle, slicing s[:i] / s[i:] / s[i:j], strip(chars),
    upper, startswith, split(","), iteration of a text stream by lines. *)
-Require Import Cirbo.Model.Base Cirbo.Model.Gate Cirbo.Model.Circuit.
+Require Import Cirbo.Model.Base Cirbo.Model.Gate Cirbo.Model.Den Cirbo.Model.Circuit.
 Require Import Cirbo.Generated.GateTypes Cirbo.Generated.BenchDispatch.
 
 (* ------------------------------------------------------------------ characters *)
@@ -277,14 +277,11 @@ Definition inputs_consistent (c : circuit) : Prop :=
   (forall l, In l (inputs c) -> dget (gates c) l = Some (mkGate INPUT [])) /\
   (forall l g, In (l, g) (gates c) -> gtyp g = INPUT -> In l (inputs c)).
 
-(* every non-input gate has an operand count its bench handler binds *)
-Definition bench_arity_ok (t : gtype) (n : nat) : bool :=
-  match lookup_processing processings (gname t) with
-  | Some h => gtype_beq (htype h) t && handler_accepts h n
-  | None => false
-  end.
+(* every non-input gate has an operand count its operator accepts (Den.den_accepts: one for
+   NOT/IFF, two for the binary types, two or more for AND/OR/XOR/NAND/NOR/NXOR, any for constants) *)
 Definition arities_ok (c : circuit) : Prop :=
-  forall l g, In (l, g) (gates c) -> gtyp g <> INPUT -> bench_arity_ok (gtyp g) (List.length (gops g)) = true.
+  forall l g, In (l, g) (gates c) -> gtyp g <> INPUT ->
+              den_accepts (gtyp g) (List.length (gops g)) = true.
 
 (* the gate map is a dict: keys are unique *)
 Definition keys_unique (c : circuit) : Prop := NoDup (dkeys (gates c)).
